@@ -3,4 +3,3 @@ package main
 func genMsgs(repo, out string)    {}
 func genTables(repo, out string)  {}
 func genGlobals(repo, out string) {}
-func genAccessors(repo, out string) {}
